@@ -26,6 +26,8 @@ def build(cases, nested):
     """cases: list of (t, bytes) integer-like leaves placed as static-field initialisers *and* annotation elements.
     nested: a list of encoded values (arbitrary trees) placed as further annotation elements."""
     sfields = [("f%04d" % i, DESC[t], 9) for i, (t, bs) in enumerate(cases)]
+    # trailing static fields without an initial value: the static_values array is shorter than the field list (compilers trim trailing defaults)
+    sfields += [("zy%d" % i, "I", 9) for i in range(len(cases) % 3)]
     sv = [leaf_int(t, bs) for (t, bs) in cases]
     elems = [("e%04d" % i, leaf_int(t, bs)) for i, (t, bs) in enumerate(cases)]
     elems += [("n%04d" % i, v) for i, v in enumerate(nested)]
